@@ -406,3 +406,8 @@ Definition tbl_reg (l : list nat) (n : nat) : bool := existsb (Nat.eqb n) l.
 Definition run_case (regl : list nat) (tbl : list (nat * nat * action)) (d : dcl) (v : value) : string :=
   let '(log, v') := walk_root (tbl_reg regl) (tbl_proc tbl) d v in
   show_log log ++ "$" ++ show_value v'.
+
+(* several models under construction, processed one after the other (model.py:979-987) *)
+Definition run_models (regl : list nat) (tbl : list (nat * nat * action)) (ms : list (dcl * value)) : string :=
+  let rs := map (fun m => walk_root (tbl_reg regl) (tbl_proc tbl) (fst m) (snd m)) ms in
+  show_log (flat_map fst rs) ++ "$" ++ sjoin "$" (map (fun r => show_value (snd r)) rs).
